@@ -649,15 +649,8 @@ theorem takagi_real_entry (l : K) :
 
 end takagi
 
-/-! ### the two known findings -/
+/-! ### restricted symplectic form (why the unit subspace of `bloch_messiah` needs its own basis) -/
 section findings
-
-/-- `np.round(x, r)` on a value given with two more decimals (`k` in units of `10^-(r+2)`): the key by
-which `takagi` groups singular values into degenerate subspaces -/
-def roundKey (k : Int) : Int := (k + 50) / 100
-
-theorem roundKey_close (a b : Int) (h : roundKey a = roundKey b) : a - b < 100 ∧ b - a < 100 := by
-  unfold roundKey at h; omega
 
 /-- restriction of the symplectic form to a basis: `(BᵀΩB)ᵢⱼ` for integer matrices given as functions -/
 def restrictForm (n : Nat) (Ω B : Nat → Nat → Int) (i j : Nat) : Int :=
